@@ -228,3 +228,93 @@ PROPS["C09"] = {
 }
 
 
+
+# ------------------------------------------------------------------------------------------------
+PROPS["C04"] = {
+    "inject": [("src/lib.rs", "c04_aead")],
+    "mem_gb": 14,
+    "level_text": "Bounded model checking for absence of panics (index, slice, arithmetic overflow, unwrap/expect, unreachable) and "
+                  "bounded termination (unwinding assertions) of the real parsing / post-decryption code on attacker-chosen octets.",
+    "level_note": "Each harness fixes the input length and leaves the octets symbolic; primitives run on concrete keys. Error formatting "
+                  "and logging are no-ops. Whole-message parsing through Message::from_bytes exceeds goto-instrument's memory and is outside.",
+    "bounds": "per harness, see evidence",
+    "outside": "stack depth of nested containers; inputs longer than the harness lengths; panics inside Debug formatting; the primitives",
+    "assumptions": [FMT_STUBS],
+    "harnesses": [
+        H("c04_seipdv2_header_octets", "c04_aead", "quick", 1200, "StreamDecryptor::new_rfc9580 for every cipher/AEAD/chunk octet with a key of matching length: no panic",
+          ["crypto::aead::StreamDecryptor::new_rfc9580", "crypto::aead::aead_setup_rfc9580", "crypto::aead::AeadAlgorithm::{nonce_size,tag_size}", "crypto::sym::SymmetricKeyAlgorithm::key_size"], "3 symbolic octets"),
+    ],
+}
+
+# ------------------------------------------------------------------------------------------------
+VER_FUNCS = ["packet::Signature::{verify,verify_key_third_party,verify_third_party_certification,verify_subkey_binding,"
+             "verify_primary_key_binding,match_identity,check_signature_key_version_alignment}", "packet::SignatureConfig::{hash_signature_data,"
+             "hash_data_to_sign,trailer}", "packet::signature::types::serialize_for_hashing"]
+PROPS["C02"] = {
+    "inject": [("src/packet/signature/types.rs", "c11_sig")],
+    "mem_gb": 14,
+    "level_text": "Bounded model checking of every verify entry point of the signature packet with ideal hash/signature primitives: "
+                  "for two fully symbolic situations (signed A, presented B) the solver shows verify(B)=Ok implies A and B agree in "
+                  "every field, so no modified content, metadata, salt, type or hash prefix is accepted.",
+    "level_note": "Bounds: documents 2-3 bytes, key/id bodies 3-4 bytes, hashed area = creation time + one opaque subpacket; SHA-256 id. "
+                  "Rejection of a modified signature *value* or of another key without issuer subpacket is the (ideal) primitive's contract.",
+    "bounds": "documents 2-3 bytes; key and id bodies 3-4 bytes; hashed area 10 bytes; v4 and v6",
+    "outside": "real RSA/ECC/EdDSA verification; hash collision resistance; the unhashed area (not protected by design); Message::verify over a parsed message; cleartext framework",
+    "assumptions": SIG_ASSUME,
+    "harnesses": [
+        H("c02_data_v4_2", "c11_sig", "quick", 900, "v4 data signature: signed A vs presented B (doc, pk octet, time, subpacket type/critical/body, hash prefix)", VER_FUNCS, "doc 2 bytes"),
+        H("c02_data_v6_2", "c11_sig", "quick", 900, "v6 data signature incl. salt", VER_FUNCS, "doc 2 bytes"),
+        H("c02_truncated_3_2", "c11_sig", "quick", 900, "message truncated by one byte is rejected", VER_FUNCS, "3 -> 2 bytes"),
+        H("c02_extended_2_3", "c11_sig", "thorough", 900, "message extended by one byte is rejected", VER_FUNCS, "2 -> 3 bytes"),
+        H("c02_key_v4", "c11_sig", "quick", 900, "direct-key/revocation: key body, key version framing, type", VER_FUNCS, "key body 4 bytes"),
+        H("c02_key_v6", "c11_sig", "thorough", 900, "direct-key/revocation v6", VER_FUNCS, "key body 4 bytes"),
+        H("c02_cert_v4", "c11_sig", "quick", 900, "certification: id bytes, id/attribute tag, key body", VER_FUNCS, "id 3 bytes, key 3 bytes"),
+        H("c02_cert_v6", "c11_sig", "thorough", 900, "certification v6", VER_FUNCS, "id 3 bytes, key 3 bytes"),
+        H("c02_subkey_binding_v4", "c11_sig", "quick", 900, "subkey binding: both key bodies and their order", VER_FUNCS, "keys 3+3 bytes"),
+        H("c02_primary_binding_v4", "c11_sig", "thorough", 900, "primary-key binding", VER_FUNCS, "keys 3+3 bytes"),
+        H("c15_issuer_keyid", "c11_sig", "quick", 900, "issuer key id subpacket vs verifying key id: accepted iff equal", VER_FUNCS, "8+8 symbolic bytes"),
+    ],
+}
+PROPS["C15"] = {
+    "inject": [("src/packet/signature/types.rs", "c11_sig")],
+    "mem_gb": 14,
+    "level_text": "Bounded model checking of the acceptance rules on the signature path as truth tables over symbolic version / type / "
+                  "criticality octets, each against the RFC 9580 rule as oracle.",
+    "level_note": "Covers: v6<->v6 key/signature alignment on sign and verify, unknown critical hashed subpackets, issuer key id binding. "
+                  "ESK/container version filtering and key-import parity need Message::from_bytes / key_parser, which exceed "
+                  "goto-instrument's memory (see DESIGN.md) and are outside.",
+    "bounds": "key version in {4,6} x signature version {4,6}; opaque subpacket types 0..127 x critical bit",
+    "outside": "esk_filter mapping inside MessageParser::visit_esk; OnePassSignature::matches inside SignatureManyReader; key parser subkey-version rule; public/secret import parity",
+    "assumptions": SIG_ASSUME,
+    "harnesses": [
+        H("c15_align_sig_v4", "c11_sig", "quick", 900, "v4 signature verified under v4|v6 key: accepted iff versions align", VER_FUNCS, "key version symbolic"),
+        H("c15_align_sig_v6", "c11_sig", "quick", 900, "v6 signature verified under v4|v6 key", VER_FUNCS, "key version symbolic"),
+        H("c15_sign_align_v4", "c11_sig", "quick", 900, "sign() with v4 config under v6 key refused", SIGN_FUNCS, ""),
+        H("c15_sign_align_v6", "c11_sig", "quick", 900, "sign() with v6 config under v4 key refused", SIGN_FUNCS, ""),
+        H("c11_fields_v4", "c11_sig", "quick", 600, "unknown critical hashed subpacket refused, non-critical / experimental accepted", SIGN_FUNCS, "types 0..127"),
+        H("c11_fields_v4_exp", "c11_sig", "quick", 600, "experimental critical subpacket accepted", SIGN_FUNCS, "types 100..110"),
+        H("c15_issuer_keyid", "c11_sig", "thorough", 900, "issuer key id binding", VER_FUNCS, ""),
+    ],
+}
+
+# ------------------------------------------------------------------------------------------------
+FPR_F = ["packet::key::public::PubKeyInner::imprint::<D>", "packet::PublicKey::imprint", "packet::PublicSubkey::imprint", "types::PublicParams::to_writer (Unknown)", "types::Fingerprint::{len,version,as_bytes}"]
+PROPS["C13"] = {
+    "inject": [("src/packet/key/public.rs", "c13_fpr")],
+    "mem_gb": 12,
+    "level_text": "Bounded model checking of the real fingerprint construction with the digest as an injective recorder (the code is generic "
+                  "over the digest type, no stub): for every creation time, algorithm octet and key body the hashed byte string equals the "
+                  "RFC 9580 5.5.4 framing (0x99 len16 / 0x9B len32 + inner count).",
+    "level_note": "Bounds: opaque key bodies of 0-5 octets (Unknown-algorithm parameters); v4 and v6 primary and subkey packets. "
+                  "That MD5/SHA-1/SHA-256 compute correctly, v3 RSA keys, and the sites embedding ids into signatures/ESKs are outside.",
+    "bounds": "key body 0..5 octets, creation time and algorithm octet fully symbolic, v4|v6, primary|subkey",
+    "outside": "v3 (MD5 over RSA MPIs: needs RSA parameter objects); the hash functions; bodies > 255 octets as data (length-field width is in the type); builder sites that embed ids",
+    "assumptions": [FMT_STUBS, "digest = injective recorder passed as the generic parameter D"],
+    "harnesses": [
+        H("c13_fpr_input_v4_5", "c13_fpr", "quick", 600, "v4 fingerprint input for a 5-octet key body", FPR_F, "body 5"),
+        H("c13_fpr_input_v6_5", "c13_fpr", "quick", 600, "v6 fingerprint input for a 5-octet key body", FPR_F, "body 5"),
+        H("c13_fpr_input_v4_0", "c13_fpr", "thorough", 600, "v4 fingerprint input, empty body", FPR_F, "body 0"),
+        H("c13_fpr_input_subkey_v4", "c13_fpr", "quick", 600, "v4 public subkey: same 0x99 framing", FPR_F, "body 3"),
+        H("c13_keyid_from_fingerprint", "c13_fpr", "quick", 600, "Fingerprint accessors", FPR_F, "20/32 symbolic bytes"),
+    ],
+}
